@@ -135,6 +135,40 @@ class World(BaseWorld):
             return "le", [[enc_key((x,)), 1], [enc_key((y,)), 1], [[], -2]]
         return rng.choice(["le", "lt", "ge", "gt"]), [[enc_key((x,)), -1], [enc_key((y,)), -2], [[], 1]]
 
+    def gen_special_any(self, rng):
+        """gen_special, its near misses (one coefficient or the offset of a shortcut shape changed, so that the shape is
+        almost but not quite the special one), and - for spin models - the spin polynomial whose boolean image is such a shape."""
+        rel, terms = self.gen_special(rng)
+        terms = [[k, v] for k, v in terms]
+        if rng.random() < self.cfg.get("p_near_miss", 0.4):
+            i = rng.randrange(len(terms))
+            how = rng.choice(["double", "inc", "negate_other", "scale_all"])
+            if how == "double":
+                terms[i][1] *= 2
+            elif how == "inc":
+                terms[i][1] += 1 if terms[i][1] > 0 else -1
+            elif how == "scale_all":
+                f = rng.choice([2, 3, -1])
+                terms = [[k, v * f] for k, v in terms]
+            else:
+                terms[i][1] = -terms[i][1]
+            terms = [[k, v] for k, v in terms if v]
+            if not terms:
+                return self.gen_special(rng) if self.kind == BOOL else ("le", [[enc_key((self.labels[0],)), 1]])
+            self.probe("near_miss_of_shortcut_shape")
+        if self.kind == BOOL:
+            return rel, terms
+        P = RefPoly(BOOL, [(dec_key(k), v) for k, v in terms]).to_spin()
+        den = P.denominator()
+        out = []
+        for k, v in P.t.items():
+            v = v * den
+            out.append([enc_key(tuple(sorted(k, key=sort_key))), int(v)])
+        if not out:
+            return "le", [[enc_key((self.labels[0],)), 1]]
+        self.probe("spin_constraint_with_shortcut_boolean_image")
+        return rel, out
+
     def gen_skewed(self, rng):
         """Ranges that straddle zero asymmetrically ([-m, 1], [-1, m], [-m, 2] ...): slack sizing must cover the long side."""
         L = self.labels
@@ -157,8 +191,8 @@ class World(BaseWorld):
         r = rng.random()
         if r < c.get("p_skewed", 0.2):
             rel, terms = self.gen_skewed(rng)
-        elif self.kind == BOOL and r < c.get("p_skewed", 0.2) + c["p_special"]:
-            rel, terms = self.gen_special(rng)
+        elif r < c.get("p_skewed", 0.2) + c["p_special"]:
+            rel, terms = self.gen_special_any(rng)
         else:
             rel = rng.choice(RELS)
             terms = self.gen_poly_terms(rng, rng.randint(1, c["cons_vars"]), c["cons_deg"], rng.randint(1, 3), c["cons_coefs"])
@@ -734,11 +768,13 @@ ALPHABETS = {
     "str": ["a", "b", "c", "x0", "y"],
     "tuple": [("v", 0), ("v", 1), ("w", 0), ("a", 2)],
     "mixed": [0, 1, "a", "b", ("v", 0)],
+    # user labels that merely resemble the reserved ancilla prefix '__a' (only labels STARTING with it are ancillas)
+    "dunder": ["x__a0", "n__a1", "___a2", "__b0", "a__"],
 }
 
 
 def gen_cfg(rng, prop, tier):
-    labels = rng.choice(["int", "str", "tuple", "mixed"])
+    labels = rng.choice(["int", "str", "tuple", "mixed", "int", "str", "tuple", "mixed", "dunder"])
     alpha = list(ALPHABETS[labels])
     n = rng.randint(3, len(alpha))
     alpha = rng.sample(alpha, n)
@@ -748,7 +784,7 @@ def gen_cfg(rng, prop, tier):
         "obj_vars": rng.choice([2, 3, 4]), "obj_deg": rng.choice([1, 2, 2, 3]), "obj_coefs": rng.choice([[-1, 1], [-2, -1, 1, 2], [-3, -1, 1, 2], [-1.5, -0.5, 0.5, 1, 2.5]]),
         "cons_vars": rng.choice([2, 3, 4]), "cons_deg": rng.choice([1, 1, 2, 3]), "cons_coefs": rng.choice([[-1, 1], [-2, -1, 1, 2], [-3, -2, -1, 1, 2, 3]]),
         "lams": rng.choice([[1], [0.5, 1, 1.5, 2, 3, 4], [2, 4], [0.5]]),
-        "p_special": rng.choice([0.0, 0.3, 0.6]), "p_skewed": rng.choice([0.0, 0.2, 0.5]), "p_model_arg": rng.choice([0.0, 0.3, 0.6]),
+        "p_special": rng.choice([0.0, 0.3, 0.6]), "p_near_miss": rng.choice([0.0, 0.4, 0.7]), "p_skewed": rng.choice([0.0, 0.2, 0.5]), "p_model_arg": rng.choice([0.0, 0.3, 0.6]),
         "max_cons": rng.choice([1, 2, 3, 5]),
         "w_logic": 0, "w_obj": rng.choice([0, 0.5, 1.5]), "w_hist": rng.choice([0, 0.5, 1.5]), "w_obs": rng.choice([0, 0.5]),
         "n_ops": rng.choice([2, 4, 7, 12]),
